@@ -902,8 +902,8 @@ class VcfZarrWriter:
                 pwm.submit(self.finalise_array, field.name)
         logger.debug(f"Removing {self.wip_path}")
         shutil.rmtree(self.wip_path)
-        logger.info("Consolidating Zarr metadata")
-        zarr.consolidate_metadata(self.path)
+        # Creating the index also consolidates the metadata, which must be last
+        self.create_index()
 
     #######################
     # index
@@ -1070,7 +1070,6 @@ def encode(
         max_memory=max_memory,
     )
     vzw.finalise(show_progress)
-    vzw.create_index()
 
 
 def encode_init(
